@@ -5,7 +5,6 @@ import (
 	"sort"
 	"strings"
 
-	"github.com/juev/hledger-lsp/internal/analyzer"
 	"github.com/juev/hledger-lsp/internal/ast"
 	"github.com/juev/hledger-lsp/internal/parser"
 )
@@ -103,11 +102,19 @@ func entriesJ(es []entryView) []J {
 
 // localDiags: analyzer diagnostics that belong to one transaction alone (balance and
 // date-tag checks), as (start line, code, message).
-func localDiags(j *ast.Journal) []J {
-	res := analyzer.New().Analyze(j)
+//
+// withDecl: the damaged entry is a transaction, so the declarations of the file are the same
+// before and after, and the undeclared-account / undeclared-commodity warnings of every OTHER
+// transaction are its own diagnostics too (damage to a directive legitimately changes them).
+func localDiags(j *ast.Journal, withDecl bool) []J {
+	res := longLivedAnalyzer().Analyze(j)
 	out := []J{}
 	for _, d := range res.Diagnostics {
 		switch d.Code {
+		case "UNDECLARED_ACCOUNT", "UNDECLARED_COMMODITY":
+			if withDecl {
+				out = append(out, J{"line": d.Range.Start.Line, "code": d.Code, "msg": hx(d.Message)})
+			}
 		case "UNBALANCED", "MULTIPLE_INFERRED", "EMPTY_DATE_TAG", "INVALID_DATE_TAG":
 			msg := d.Message
 			if d.Code == "UNBALANCED" {
@@ -138,10 +145,17 @@ func c07Case(text, damaged string, first, last, k int, kind string) map[string]a
 		}
 		return out
 	}
+	// is the entry that gets damaged a transaction of the intact journal?
+	isTx := false
+	for _, t := range j0.Transactions {
+		if t.Range.Start.Line == first+1 {
+			isTx = true
+		}
+	}
 	return map[string]any{"text": hx(text), "damaged": hx(damaged), "first": first, "last": last, "k": k, "kind": kind,
 		"impl": J{
-			"before": J{"entries": entriesJ(entriesOf(j0)), "errors": errLines(e0), "diags": localDiags(j0)},
-			"after":  J{"entries": entriesJ(entriesOf(j1)), "errors": errLines(e1), "diags": localDiags(j1)},
+			"before": J{"entries": entriesJ(entriesOf(j0)), "errors": errLines(e0), "diags": localDiags(j0, isTx)},
+			"after":  J{"entries": entriesJ(entriesOf(j1)), "errors": errLines(e1), "diags": localDiags(j1, isTx)},
 		}}
 }
 
